@@ -66,7 +66,17 @@ theorem step_mono {cfg : Cfg} {s s' : State} (a : Action) (h : step cfg s a = so
     split at h
     · exact updConn_mono (good_cStartP i) h
     · exact updConn_mono (good_cStart i) h
-  | fin c i => exact updConn_mono (good_cFin i) h
+  | fin c i =>
+    simp only [step] at h
+    split at h
+    · contradiction
+    · exact updConn_mono (good_cFin i) h
+  | finEarly c i =>
+    simp only [step] at h
+    split at h
+    · exact updConn_mono (good_cFinEarly i) h
+    · contradiction
+  | lateWrite c i => exact updConn_mono (good_cLateWrite i) h
   | write c i => exact updConn_mono (good_cWrite i) h
   | skip c i => exact updConn_mono (good_cSkip _ i) h
   | dec c i => exact updConn_mono (good_cDec i) h
@@ -286,6 +296,26 @@ theorem nhf_cDec (i : Nat) : NoHandF (cDec i) := by
   · exact hn q hq
   · subst hq; simp
 
+theorem nhf_cFinEarly (i : Nat) : NoHandF (cFinEarly i) := by
+  intro k k' h hn q hq
+  unfold cFinEarly at h
+  split at h <;> try contradiction
+  split at h <;> try contradiction
+  simp only [Option.some.injEq] at h; subst h
+  rcases List.mem_or_eq_of_mem_set hq with hq | hq
+  · exact hn q hq
+  · subst hq; simp
+
+theorem nhf_cLateWrite (i : Nat) : NoHandF (cLateWrite i) := by
+  intro k k' h hn q hq
+  unfold cLateWrite at h
+  split at h <;> try contradiction
+  split at h <;> try contradiction
+  simp only [Option.some.injEq] at h; subst h
+  rcases List.mem_or_eq_of_mem_set hq with hq | hq
+  · exact hn q hq
+  · subst hq; simp
+
 def NoHandAll (s : State) : Prop := ∀ (c : Nat) (k : Conn), s.conns[c]? = some k → NoHand k
 
 theorem nohand_updConn {s s' : State} {c : Cid} {f : Conn → Option Conn} (hf : NoHandF f)
@@ -348,7 +378,17 @@ theorem nohand_step {cfg : Cfg} (hpool : cfg.pool = none) {s s' : State} (a : Ac
     split at h
     · exact nohand_updConn (nhf_cStartP i) hn h
     · exact nohand_updConn (nhf_cStart i) hn h
-  | fin c i => exact nohand_updConn (nhf_cFin i) hn h
+  | fin c i =>
+    simp only [step] at h
+    split at h
+    · contradiction
+    · exact nohand_updConn (nhf_cFin i) hn h
+  | finEarly c i =>
+    simp only [step] at h
+    split at h
+    · exact nohand_updConn (nhf_cFinEarly i) hn h
+    · contradiction
+  | lateWrite c i => exact nohand_updConn (nhf_cLateWrite i) hn h
   | write c i => exact nohand_updConn (nhf_cWrite i) hn h
   | skip c i => exact nohand_updConn (nhf_cSkip _ i) hn h
   | dec c i => exact nohand_updConn (nhf_cDec i) hn h
